@@ -212,6 +212,25 @@ def datasets(draw, tier="quick"):
             anns = list(draw(st.permutations(anns)))
         samples.append({"t": ts[i], "lidar_dt": draw(st.sampled_from([0, 0, 1, -3, 17_000])), "ego": ego, "anns": anns})
 
+    # two scenes (1 in 4 when there are >= 2 samples): the instances of the second scene are separate instances, and the
+    # first-listed scene may have been recorded LATER than the second (sample table not chronological)
+    scene_cut = None
+    if n >= 2 and draw(st.sampled_from([False, False, True])):
+        scene_cut = draw(st.integers(1, n - 1))
+        later_first = draw(st.sampled_from([True, True, False]))
+        remap = {}
+        for s_ in samples[scene_cut:]:
+            for a in s_["anns"]:
+                if a["inst"] not in remap:
+                    remap[a["inst"]] = len(instances)
+                    instances.append(instances[a["inst"]])
+                a["inst"] = remap[a["inst"]]
+        if later_first:
+            tt = [s_["t"] for s_ in samples]
+            tt = tt[n - scene_cut:] + tt[: n - scene_cut]
+            for s_, t_ in zip(samples, tt):
+                s_["t"] = t_
+
     n_sens = draw(st.sampled_from([0, 0, 1, 2, 3]))
     chans = draw(st.permutations(EXTRA_CHANNELS))[:n_sens]
     sensors = []
@@ -238,6 +257,7 @@ def datasets(draw, tier="quick"):
             "sweeps": draw(st.sampled_from([0, 0, 1, 2])),
             "ann_order": draw(st.sampled_from(["sample", "instance", "reverse"])),
             "sd_order": draw(st.sampled_from(["lidar_last", "lidar_first", "lidar_middle"])),
+            "scene_cut": scene_cut,
         },
         "task": draw(st.sampled_from(TASKS)),
         "frame": draw(st.sampled_from(FRAMES)),
@@ -408,6 +428,10 @@ def _classify(ctx, d):
         ctx.cls("negative_quaternion_sign")
     if ds["sweeps"]:
         ctx.cls("with_sweeps")
+    if ds.get("scene_cut"):
+        ctx.cls("two_scenes")
+        if any(S[i]["t"] > S[i + 1]["t"] for i in range(len(S) - 1)):
+            ctx.cls("sample_table_not_chronological")
     if len(ds["sensors"]) > 0:
         ctx.cls("sample_data_" + ds.get("sd_order", "lidar_last"))
     if any(s["lidar_dt"] for s in S):
